@@ -374,11 +374,7 @@ static void op_load(const char* hex, int mode, long k, size_t cap) {
     free(ob2);
   }
 #if CBOR_PRETTY_PRINTER
-  { /* cbor_describe into memory: the number of lines it prints is determined by the tree (one per item, one per definite string's data, one per map entry,
-       plus the line feeds inside text strings) */
-    char* dbuf = NULL; size_t dlen = 0; FILE* dn = open_memstream(&dbuf, &dlen);
-    if (dn) { cbor_describe(item, dn); fclose(dn); size_t nl = 0; for (size_t i = 0; i < dlen; i++) if (dbuf[i] == '\n') nl++; printf(" desc=%zu", nl); free(dbuf); }
-  }
+  { FILE* dn = fopen("/dev/null", "w"); if (dn) { cbor_describe(item, dn); fclose(dn); } }
 #endif
   cbor_item_t* cp = cbor_copy(item);
   if (!cp) printf(" copy=null");
@@ -726,6 +722,29 @@ static int op_mapkv(int definite, const char* pat) {
   return 1;
 }
 
+/* DESC <hex> <marker-hex>: load, cbor_describe into memory -> "described bytes=<n> marker=<0|1>" (whether the marker bytes - the content of a text leaf of the
+   input - occur in what was printed; independent of the layout of the description) | "ERR" */
+static int op_desc(const char* hex, const char* markhex) {
+#if CBOR_PRETTY_PRINTER
+  struct xbuf in = hex_to_exact(hex);
+  unsigned char mk[64]; size_t mn = hex_decode(markhex, mk, sizeof mk);
+  struct cbor_load_result res; cbor_item_t* item = cbor_load(in.p, in.n, &res);
+  free_exact(in);
+  if (!item) { printf("ERR\n"); return 1; }
+  char* dbuf = NULL; size_t dlen = 0; FILE* dn = open_memstream(&dbuf, &dlen);
+  int has = 0;
+  if (dn) {
+    cbor_describe(item, dn); fclose(dn);
+    for (size_t i = 0; mn && i + mn <= dlen && !has; i++) if (memcmp(dbuf + i, mk, mn) == 0) has = 1;
+    printf("described bytes=%zu marker=%d\n", dlen, has); free(dbuf);
+  } else printf("no-memstream\n");
+  cbor_decref(&item);
+#else
+  (void)hex; (void)markhex; printf("no-pretty-printer\n");
+#endif
+  return 1;
+}
+
 int hist_op(int argc, char** w);
 
 int tree_op(int argc, char** w) {
@@ -749,5 +768,6 @@ int tree_op(int argc, char** w) {
   if (argc == 3 && !strcmp(w[0], "GROWRUN")) return op_growrun(w[1], strtoull(w[2], 0, 10));
   if (argc == 2 && !strcmp(w[0], "FLTGET")) return op_fltget(w[1]);
   if (argc == 3 && !strcmp(w[0], "MAPKV")) return op_mapkv(atoi(w[1]), w[2]);
+  if (argc == 3 && !strcmp(w[0], "DESC")) return op_desc(w[1], w[2]);
   return hist_op(argc, w);
 }
